@@ -50,7 +50,11 @@ func (g *genCtx) strategy(horizon int) simrt.StrategyConfig {
 }
 
 func (g *genCtx) hashMode(sc *ConcScenario) {
-	switch g.pick([]int{45, 30, 25}) {
+	switch g.pick([]int{40, 25, 20, 15}) {
+	case 3:
+		// half of the keys collide into n values (long chains, early grows),
+		// the other half spread out (empty root buckets next to full chains)
+		sc.HashMode, sc.CollideN = "split", 1+g.r.Intn(2)
 	case 0:
 		sc.HashMode = "det"
 	case 1:
@@ -69,6 +73,9 @@ func (g *genCtx) mapContainer(sc *ConcScenario, kinds []string) {
 	sc.Kind = kinds[g.r.Intn(len(kinds))]
 	if sc.Kind != "map" {
 		sc.Hasher = hasherKinds[g.r.Intn(len(hasherKinds))]
+	}
+	if g.r.Bool(0.06) {
+		sc.Hasher = "growonly" // the internal grow-only option (tables never shrink)
 	}
 	g.hashMode(sc)
 	per := 3
@@ -372,6 +379,9 @@ func genConc(prop string, seed uint64, tier string) *ConcScenario {
 		mx.filler = 14
 		mx.setDef, mx.setCB = 6, 6
 	}
+	if cacheFam && sc.Prefill > 0 {
+		mx.filler *= 3 // tables of caches never go below 32 buckets: more inserts per phase so that one lands on a full chain and grows
+	}
 	if cacheFam && (prop == "C06" || g.r.Bool(0.3)) {
 		sc.CBKind = 1
 		if prop == "C13" || (prop == "C06" && g.r.Bool(0.2)) {
@@ -434,6 +444,7 @@ func genConc(prop string, seed uint64, tier string) *ConcScenario {
 	}
 	switch prop {
 	case "C05":
+		sc.Phases[0].Stall = nil
 		g.c05Workload(sc, hot)
 	case "C16":
 		g.c16Workload(sc, hot)
@@ -450,6 +461,38 @@ func (g *genCtx) c05Workload(sc *ConcScenario, hot int) {
 	key := 0
 	filler := 50
 	wl := g.r.Intn(3)
+	if !cacheFam && g.r.Bool(0.12) {
+		// racers while the table shrinks and grows back to its old length
+		// (a caller frozen between reading the table pointer and locking its
+		// bucket must still notice that the table was replaced)
+		per := 3
+		if sc.Kind != "map" {
+			per = 5
+		}
+		sc.MinLen = 1 + g.r.Intn(2)
+		sc.UsePre, sc.Presize = false, 0
+		n := int(32*float64(per)*0.75) + 6 + g.r.Intn(10)
+		sc.Prefill, sc.PrefillKeep = n, -1
+		var su []Op
+		for _, op := range sc.Setup {
+			if op.Key != key {
+				su = append(su, op)
+			}
+		}
+		sc.Setup = su
+		nr := 2 + g.r.Intn(2)
+		for i := 0; i < nr; i++ {
+			if g.r.Bool(0.5) {
+				ph.Tasks = append(ph.Tasks, []Op{{K: MLoadOrStore, Key: key, Val: g.val()}})
+			} else {
+				ph.Tasks = append(ph.Tasks, []Op{{K: MLoadOrCompute, Key: key, Val: g.val()}})
+			}
+		}
+		ph.Tasks = append(ph.Tasks, []Op{{K: XBulkDelete, Key: prefillBase, N: n}, {K: XBulkInsert, Key: prefillBase, Val: prefillVal, N: n}})
+		ph.Stall = &StallCfg{Task: g.r.Intn(nr), AtStep: 2 + g.r.Intn(6), Resume: true}
+		ph.Delays = nil
+		return
+	}
 	if wl == 2 {
 		// swap chain: k tasks x n LoadAndStore / GetAndSet of unique values on one key
 		n := 2 + g.r.Intn(3)
